@@ -36,7 +36,8 @@ prop("C05", "Unbounded proof of the duplicate-handling guards: a complete duplic
       S+"partReceived": ["known-file-answers-yes", "yes-needs-record-or-known-file"]})
 prop("C06", "Unbounded proof of the write-ahead orderings inside each receiver function that the crash argument rests on: data written and closed before the companion records it, companion written before the rename to .full, receive-log record before the move, state finalized and companion removal only after a successful move (narrow claim: no crash image is enumerated)",
      "the crash-point quantifier itself: no crash image is enumerated, only the ordering discipline is proved; Recover's case analysis and fileutil.Move are listed in the evidence when under contract",
-     {S+"Receive": ["data-before-record", "record-before-rename", "copy-error-is-reported", "record-error-is-reported", "completeness-of-written-record", "copies-into-the-partial"],
+     {S+"Receive": ["data-before-record", "record-before-rename", "copy-error-is-reported", "record-error-is-reported", "completeness-of-written-record", "copies-into-the-partial", "companion-removed-only-when-finalized", "duplicate-body-removed"],
+      "stage.newLocalCompanion": None,
       S+"putFileAway": ["log-before-move", "finalized-after-move", "companion-removed-last"]})
 prop("C08", "Unbounded proof on the receiver side that the answer to 'how many of these parts did you receive' counts exactly the leading parts that are on record and stops at the first missing one",
      "sender side (split at the acknowledged count, tracker) not yet under contract; several sender threads; HTTP transport",
@@ -90,7 +91,7 @@ prop("C11", "Unbounded proof of the cursor contracts that make chunks and parts 
 prop("C12", "Unbounded proof of the local rules of group rotation: the served group is moved directly behind the last group of the maximal run of equal priority (pointer postconditions under non-aliasing), the head pointer follows, exactly the group whose file is emitted is rotated, and the scan moves past a group only when it has nothing ready",
      "sortedness of the group list by priority over addGroup/delayGroup histories and the bounded-bypass theorem are paper arguments; addGroup not yet under contract",
      {"(*queue.Tagged).delayGroup": None,
-      "(*queue.Tagged).Pop": ["emits-a-file-of-the-served-group", "rotates-served-group", "skips-only-unready-groups"]})
+      "(*queue.Tagged).Pop": ["emits-a-file-of-the-served-group", "rotates-served-group", "skips-only-unready-groups", "skipped-groups-are-not-rotated"]})
 prop("C17", "Unbounded proof of the sender-side eligibility rules that are code in package client: a scanned file is taken iff it is not empty and is new or changed in size or time relative to the cache; changed files are dropped from a payload being retried and never re-sent by the retry loop; start-up recovery polls or resumes only unchanged files",
      "the directory walk and pattern rules of store.Local when not yet under contract; histories of scans; regexp engine",
      {B+"includeScannedFile": None,
